@@ -25,6 +25,8 @@ FLAVOURS = {
     # a freestanding translation (__STDC_HOSTED__ == 0, the compiler's own <stdint.h>) in which the "fast" 16-bit type really has 16 bits, as on
     # 8/16-bit targets: code selected for firmware builds, and arithmetic that silently relies on uint_fast16_t being wider than 16 bits
     'asan-fs16': {'cc': 'gcc', 'cflags': SAN + ' -DNDEBUG', 'lib_cflags': '-ffreestanding -U__UINT_FAST16_TYPE__ -D__UINT_FAST16_TYPE__=__UINT16_TYPE__'},
+    # a compiler that does not claim GCC compatibility (as MSVC, or clang-cl): code under #ifdef __GNUC__ / #else
+    'clang-nognu': {'cc': 'clang', 'cflags': '-O1 -g -fno-omit-frame-pointer -fsanitize=address,undefined -fno-sanitize-recover=all -fno-sanitize=object-size -DNDEBUG', 'lib_cflags': '-fgnuc-version=0'},
     'asan-cp932': {'cc': 'gcc', 'cflags': SAN + ' -DNDEBUG', 'lib_cflags': '-fexec-charset=CP932'},
     'tsan':     {'cc': 'gcc', 'cflags': '-O1 -g -fsanitize=thread -DNDEBUG'},
     # libc entry points reachable from the library are interposed at link time (C11, C15, C18)
@@ -266,7 +268,7 @@ PROPS['C09'] = {
              # coverage-guided: libFuzzer mutates phrases, the target checks the auto-vs-explicit relation on every input
              {'name': 'fuzz-relation', 'kind': 'fuzz', 'flavour': 'fuzz', 'driver': 'fuzz_api', 'mode': 3, 'runs_quick': 30000, 'runs_thorough': 1500000}] +
             [{'name': 'fuzz-relation-%d' % k, 'kind': 'fuzz', 'flavour': 'fuzz', 'driver': 'fuzz_api', 'mode': 3, 'runs_quick': 30000, 'runs_thorough': 1500000, 'seed_offset': k, 'tiers': ('thorough',)} for k in (1, 2, 3)],
-    'require': {'fuzz.execs.fuzz-relation': 10000, 'concurrent.strings_satisfying_the_relation': 5000, 'outcome.NUM_WORDS': 1000, 'outcome.LANG': 1000, 'outcome.MULT_LANG': 1000, 'outcome.unique.OK': 1000, 'outcome.unique.ERR_CHECKSUM': 1000, 'outcome.unique.ERR_UNSUPPORTED': 1000,
+    'require': {'marks.run_of_40': 20, 'marks.run_of_150': 20, 'fuzz.execs.fuzz-relation': 10000, 'concurrent.strings_satisfying_the_relation': 5000, 'outcome.NUM_WORDS': 1000, 'outcome.LANG': 1000, 'outcome.MULT_LANG': 1000, 'outcome.unique.OK': 1000, 'outcome.unique.ERR_CHECKSUM': 1000, 'outcome.unique.ERR_UNSUPPORTED': 1000,
                 'armed.auto.ERR_MEMORY': 1000, 'armed.memory_before_unsupported': 300, 'armed.checksum_before_memory': 300, 'ambiguous.constructed': 500,
                 'multi3.constructed': 500, 'multi3.phrases_recognised_by_3_languages': 200, 'lang_out_null.ERR_MULT_LANG': 1000, 'lang_out_null.OK': 1000},
 }
@@ -298,7 +300,7 @@ PROPS['C15'] = {
     'exhaustive_possible': True,
     'runs': [{'name': 'asan-wrap', 'flavour': 'asan-wrap', 'driver': 'drv_c15', 'env': {'ASAN_OPTIONS': _LSAN}},
              {'name': 'msan-wrap', 'flavour': 'msan-wrap', 'driver': 'drv_c15', 'env': {'PV_SCALE': '50', 'PV_NO_STATIC_MONITOR': '1'}, 'shards': 4}],
-    'require': {'firstuse.children_ok': 25, 'matrix.cases_ok': 500, 'matrix.cases_with_stale_out_pointer_and_address_reuse': 500, 'matrix.cases_with_8_byte_aligned_blocks': 500, 'faults.injected': 500, 'masks.enumerated': 2000, 'libc.seed_freed_once': 500, 'free_null.silent': 500,
+    'require': {'libc.refused_allocation_reported_as_MEMORY': 100, 'firstuse.children_ok': 25, 'matrix.cases_ok': 500, 'matrix.cases_with_stale_out_pointer_and_address_reuse': 500, 'matrix.cases_with_8_byte_aligned_blocks': 500, 'faults.injected': 500, 'masks.enumerated': 2000, 'libc.seed_freed_once': 500, 'free_null.silent': 500,
                 'matrix.cell.decode.UNSUPPORTED.fault-1(hit)': 10, 'matrix.cell.decode_explicit.UNSUPPORTED.fault-1(hit)': 10, 'matrix.cell.load.UNSUPPORTED.fault-1(hit)': 10,
                 'matrix.cell.decode.CHECKSUM.fault-1(not reached)': 10, 'matrix.cell.decode.MULT_LANG.fault-1(not reached)': 5, 'matrix.cell.load.FORMAT.fault-1(hit)': 10},
 }
@@ -357,7 +359,7 @@ MANIFEST_TEXT['C20'] = {'technique': 'runtime monitoring: ThreadSanitizer build 
 # Configuration stripes: "which code is compiled" is an input of every property (DESIGN.md 2.9, lessons i and v).  Every functional driver
 # that does not need the libc interposition flavours also runs a thin stripe of its workload on: a library built with unsigned plain char,
 # a clang build, -march=native, MemorySanitizer, a non-UTF-8 execution charset, and the assertion-enabled build.
-_AXES = [('fs16', 'asan-fs16', '6'), ('uchar', 'uchar', '8'), ('clang', 'clang-asan', '8'), ('native', 'asan-native', '8'), ('msan', 'msan', '8'), ('cp932', 'asan-cp932', '5'), ('asan-dbg', 'asan-dbg', '6')]
+_AXES = [('nognu', 'clang-nognu', '6'), ('fs16', 'asan-fs16', '6'), ('uchar', 'uchar', '8'), ('clang', 'clang-asan', '8'), ('native', 'asan-native', '8'), ('msan', 'msan', '8'), ('cp932', 'asan-cp932', '5'), ('asan-dbg', 'asan-dbg', '6')]
 for _p in ('C01', 'C02', 'C03', 'C04', 'C05', 'C06', 'C07', 'C08', 'C09', 'C10', 'C12', 'C14', 'C17'):
     _runs = PROPS[_p]['runs']
     _drv = _runs[0]['driver']
